@@ -701,6 +701,10 @@ class SimClock:
         return getattr(self._real, name)
 
 
+class InjectedTaskFault(RuntimeError):
+    """a transient failure inside one task (fault kind task_exception)."""
+
+
 class EntryPollution:
     """fault kind global_rng_pollution delivered *during* a run: at the k-th entry of a named quara function (a stage boundary
     such as the start of a repetition) something else in the process - another component, a callback - draws from or
@@ -741,6 +745,9 @@ class EntryPollution:
                     np.random.seed(arg)
                 elif kind == "py_reseed":
                     pyrandom.seed(arg)
+                elif kind == "raise":
+                    self.stats["task_exception"] = self.stats.get("task_exception", 0) + 1
+                    raise InjectedTaskFault(f"injected failure at entry {c} of {name}")
                 self.stats["global_rng_pollution"] = self.stats.get("global_rng_pollution", 0) + 1
                 self.stats["pollution_inside_run"] = self.stats.get("pollution_inside_run", 0) + 1
 
